@@ -1058,6 +1058,10 @@ def np_method(I, obj, name):
         def cp():
             return SArr(obj.n, obj.leaves, obj.kind, True)
         return mk(cp)
+    if name == 'T':
+        # transpose of a 1-D array is the array itself; for an array of opaque *rows* (kind 'U': a matrix seen row by row) the
+        # consumer must be a hook that knows this convention (np.lexsort over charges.T) - nothing else accepts the value
+        return obj
     if name == 'any':
         return mk(lambda: np_any(I, obj))
     if name == 'all':
